@@ -725,7 +725,7 @@ def _mk_if_raw(c, t, e):
 def _mk_if(c, t, e):
     """if c {t} else {e}: boolean identities (_mk_if_raw), then the decision normal form for decision tables (_decide)"""
     r = _mk_if_raw(c, t, e)
-    if r[0] == "if" and not _DECIDING[0]:
+    if r[0] in ("if", "early") and not _DECIDING[0]:
         d = _decide(r)
         if d is not None:
             return d
@@ -788,6 +788,10 @@ def _decide(t):
             conds.append(x[1])
             spine(x[2])
             spine(x[3])
+        elif x[0] == "early" and x[1] and not any(c == ("lit", "match") for c, _v in x[1]):
+            for c, _v in x[1]:
+                conds.append(c)         # `if c { return .. }` before the value is a branch of the table as well
+            spine(x[2])
     spine(t)
     if len(conds) < 2:
         return None
@@ -2252,6 +2256,8 @@ class Norm:
                 return ("call", "Entry::or_default", [recv])
             if name == "Option::filter" and len(args) == 1 and args[0][0] == "closure" and args[0][2] == 1:
                 # o.filter(p)  ==  (o is Some && p(payload)).then(|| payload)
+                if not any(x[0] == "cparam" and x[1] == args[0][1] for x in subterms(args[0][3])):
+                    return _mk_if(args[0][3], recv, ("def", "v1::None"))        # a predicate that ignores the payload: if p { o } else { None }
                 cond, payload = _opt_body(recv)
                 if cond is not None:
                     return ("call", "then", [("op", "&&", [cond, _apply(args[0], payload)]), payload])
